@@ -17,9 +17,11 @@
 //                                          (what = asan:<type> | ubsan:<file>:<line> | signal-N | exit-N | timeout)
 //     C02:superlinear:<parser>:<shape>     CPU time grows faster than ~n^1.6 in <shape> = depth | children | attr-length | text-length
 //     C02:output-not-wellformed:<parser>   an output is not well-formed XML for QDomDocument
-//     C02:not-fixpoint:<parser>            tree(o2) != tree(o3)   (namespace-resolved trees; when only sibling order differs the
+//     C02:not-fixpoint:<parser>:<where>    tree(o1) != tree(o2): one parse/serialize pass is not a fixpoint; <where> = first difference, e.g.
+//                                          affiliations/affiliation:lost, text@xml:lang:added (see diffSig)
+//     C02:not-fixpoint-after-2-passes:<parser>:<where>   tree(o2) != tree(o3) as well   (namespace-resolved trees; when only sibling order differs the
 //                                          case is counted under fixpoint_up_to_sibling_order and passes)
-//     C01:own-form-roundtrip:<parser>      tree(o1) != tree(o2) up to sibling order (o1 is a document in the library's own form)
+//     C01:own-form-roundtrip:<parser>:<where>   the same o1 != o2 event under C01's reading, up to sibling order (o1 is a document in the library's own form)
 //     C01:markup-injection:<parser>        an element {urn:canary}canary appears in an output although the input tree had none
 //     C02:harness:<what>                   the harness's own code failed (never a finding; makes the check fail visibly)
 //
@@ -171,39 +173,52 @@ static void dumpFailingInput(const std::string &key, const std::string &parser, 
     }
 }
 
-// Where two trees first differ: "<element>" (children differ), "<element>@<attr>" (attribute differs) or "<element>#text".
-// Only used to tell distinct causes under one key apart (replay text, triage); never part of a key.
+// Canonical description of where two trees first differ (part of the own-form / fixpoint keys, so that a NEW divergence in a parser
+// is not hidden behind a recorded one):
+//   <element>@<attribute>:lost|added|changed      <element>#text:lost|added|changed
+//   <element>/<child>:lost|added                  <element>/*:reordered
+// "lost" = present in the first tree, absent in the second. Element names that do not occur in the unmutated base document (content a
+// mutation grafted in from elsewhere) are written "*", so that one cause does not produce a key per foreign element name.
+static const std::set<QString> *g_vocab = nullptr;
+static std::string sigName(const QDomElement &e)
+{
+    QString n = e.localName().isEmpty() ? e.tagName() : e.localName();
+    if (g_vocab && !g_vocab->count(n)) return "*";
+    return n.toStdString();
+}
 static std::string diffSig(const QDomElement &a, const QDomElement &b, int depth = 0)
 {
-    auto nm = [](const QDomElement &e) { return (e.localName().isEmpty() ? e.tagName() : e.localName()).toStdString(); };
-    if (depth > 150) return nm(a);
+    if (depth > 150) return sigName(a) + ":deep";
     std::map<QString, QString> aa, ab;
     auto attrs = [](const QDomElement &e, std::map<QString, QString> &m) {
         auto am = e.attributes();
         for (int i = 0; i < am.count(); i++) { auto x = am.item(i).toAttr(); if (x.nodeName() == u"xmlns" || x.nodeName().startsWith(u"xmlns:")) continue; m[x.nodeName()] = x.value(); }
     };
     attrs(a, aa); attrs(b, ab);
-    for (auto &kv : aa) if (!ab.count(kv.first) || ab[kv.first] != kv.second) return nm(a) + "@" + kv.first.toStdString();
-    for (auto &kv : ab) if (!aa.count(kv.first)) return nm(a) + "@" + kv.first.toStdString();
+    for (auto &kv : aa) {
+        if (!ab.count(kv.first)) return sigName(a) + "@" + kv.first.toStdString() + ":lost";
+        if (ab[kv.first] != kv.second) return sigName(a) + "@" + kv.first.toStdString() + ":changed";
+    }
+    for (auto &kv : ab) if (!aa.count(kv.first)) return sigName(a) + "@" + kv.first.toStdString() + ":added";
     auto kids = [](const QDomElement &e, std::vector<QDomElement> &v, QString &text) {
         for (auto c = e.firstChild(); !c.isNull(); c = c.nextSibling()) { if (c.isElement()) v.push_back(c.toElement()); else if (c.isText() || c.isCDATASection()) text += c.nodeValue(); }
     };
     std::vector<QDomElement> ka, kb; QString ta, tb;
     kids(a, ka, ta); kids(b, kb, tb);
-    if (ta != tb) return nm(a) + "#text";
-    if (ka.size() != kb.size()) {
-        // name the first child present on one side only
-        for (size_t i = 0; i < std::max(ka.size(), kb.size()); i++) {
-            if (i >= ka.size()) return nm(a) + "/+" + nm(kb[i]);
-            if (i >= kb.size()) return nm(a) + "/-" + nm(ka[i]);
-            if (nm(ka[i]) != nm(kb[i]) || ka[i].namespaceURI() != kb[i].namespaceURI()) return nm(a) + "/-" + nm(ka[i]);
-        }
-    }
-    for (size_t i = 0; i < ka.size(); i++) {
-        if (nm(ka[i]) != nm(kb[i]) || ka[i].namespaceURI() != kb[i].namespaceURI()) return nm(a) + "/" + nm(ka[i]) + "~" + nm(kb[i]);
+    if (ta != tb) return sigName(a) + "#text:" + (tb.isEmpty() ? "lost" : ta.isEmpty() ? "added" : "changed");
+    auto qn = [](const QDomElement &e) { return e.namespaceURI() + u'|' + (e.localName().isEmpty() ? e.tagName() : e.localName()); };
+    std::map<QString, int> ca, cb;
+    for (auto &k : ka) ca[qn(k)]++;
+    for (auto &k : kb) cb[qn(k)]++;
+    for (auto &k : ka) if (ca[qn(k)] > cb[qn(k)]) return sigName(a) + "/" + sigName(k) + ":lost";
+    for (auto &k : kb) if (cb[qn(k)] > ca[qn(k)]) return sigName(a) + "/" + sigName(k) + ":added";
+    // same multiset of child names: pair them up in document order
+    bool sameOrder = true;
+    for (size_t i = 0; i < ka.size(); i++) if (qn(ka[i]) != qn(kb[i])) { sameOrder = false; break; }
+    if (!sameOrder) return sigName(a) + "/*:reordered";
+    for (size_t i = 0; i < ka.size(); i++)
         if (summarizeElement(ka[i]).ordered != summarizeElement(kb[i]).ordered) return diffSig(ka[i], kb[i], depth + 1);
-    }
-    return nm(a);
+    return sigName(a) + ":?";
 }
 static std::string g_shrinkSig;
 
@@ -216,9 +231,17 @@ static void failLine(const std::string &key, const std::string &parser, const st
     if (!keyInMode(key)) return;
     printf("O FAIL %s\t%s\n", key.c_str(), rep.c_str());
     fflush(stdout);
-    std::string sig;
-    if (auto sp = note.find("sig="); sp != std::string::npos) { sig = note.substr(sp + 4); auto e = sig.find(' '); if (e != std::string::npos) sig = sig.substr(0, e); }
-    dumpFailingInput(key + (sig.empty() ? "" : "|" + sig), parser, docId + "|" + mut, in);
+    dumpFailingInput(key, parser, docId + "|" + mut, in);
+}
+
+// o1 != o2: serialize(parse(o1)) differs from o1. This is C02's "re-parsing that output and serializing it again gives the same
+// document" and C01's "a document in the library's own output form survives parse-then-serialize": reported under both properties
+// (each check's --mode keeps its own).
+static void failBoth(const std::string &familyAndSig, const std::string &parser, const std::string &docId, const std::string &mut, const QByteArray &in,
+                     const QByteArray &o1, const QByteArray &o2, const std::string &note)
+{
+    failLine("C02:not-fixpoint:" + familyAndSig, parser, docId, mut, in, o1, o2, {}, note);
+    failLine("C01:own-form-roundtrip:" + familyAndSig, parser, docId, mut, in, o1, o2, {}, note);
 }
 
 // bytes requested from the allocator (process-wide, Qt included) -- a deterministic cost measure, unlike time
@@ -264,6 +287,7 @@ __attribute__((noinline)) static void dirtyStack()
     __asm__ volatile("" ::"r"(pad) : "memory");
 }
 
+static const int PROBE_REPS = 3;
 static long long g_lastCallMicros = 0, g_lastCallAlloc = 0;
 template<typename F>
 static auto timed(Status *st, F &&f)
@@ -329,7 +353,17 @@ static void explore(const QByteArray &in, const std::string &docId, const std::s
         TestClient::resetIds();
         st->phase = PH_RUN1;
         QByteArray o1 = timed(st, [&] { return c.parseAndSerialize(root); });
-        if (!probeTag.empty()) printf("T %s\t%s\t%lld\t%lld\n", c.name.c_str(), probeTag.c_str(), g_lastCallMicros, g_lastCallAlloc);
+        if (!probeTag.empty()) {
+            // cost of this call = median of PROBE_REPS repetitions (CPU microseconds and allocated bytes separately)
+            std::vector<long long> us { g_lastCallMicros }, by { g_lastCallAlloc };
+            for (int rep = 1; rep < PROBE_REPS; rep++) {
+                TestClient::resetIds();
+                (void)timed(st, [&] { return c.parseAndSerialize(root); });
+                us.push_back(g_lastCallMicros); by.push_back(g_lastCallAlloc);
+            }
+            std::sort(us.begin(), us.end()); std::sort(by.begin(), by.end());
+            printf("T %s\t%s\t%lld\t%lld\n", c.name.c_str(), probeTag.c_str(), us[us.size() / 2], by[by.size() / 2]);
+        }
         st->counters[C_RUNS]++;
         st->counters[C_BYTES_OUT] += o1.size();
         if (c.parseOnly) { st->counters[C_PARSEONLY_RUNS]++; st->counters[C_PASS]++; continue; }
@@ -375,7 +409,7 @@ static void explore(const QByteArray &in, const std::string &docId, const std::s
             disarm();
             st->counters[C_OUT_CHECKED]++;
             if (o2.isEmpty()) {
-                failLine("C01:own-form-roundtrip:" + fam(c.name), c.name, docId, mutDesc, in, o1, o2, {}, "sig=rejected own output parsed to an object that serializes to nothing (rejected by the parser)");
+                failBoth(fam(c.name) + ":own-output-rejected", c.name, docId, mutDesc, in, o1, o2, "own output parsed to an object that serializes to nothing (rejected by the parser)");
                 failed = true;
             } else if (!s2.wellFormed) {
                 failLine("C02:output-not-wellformed:" + fam(c.name), c.name, docId, mutDesc, in, o1, o2, {}, "o2");
@@ -384,7 +418,7 @@ static void explore(const QByteArray &in, const std::string &docId, const std::s
                 if (s2.canaries > sin.canaries && !failed) { failLine("C01:markup-injection:" + fam(c.name), c.name, docId, mutDesc, in, o1, o2, {}, "canary element in o2"); failed = true; }
                 if (s1.ordered != s2.ordered) {
                     if (s1.sorted == s2.sorted) st->counters[C_OWN_ORDER_ONLY]++;
-                    else { failLine("C01:own-form-roundtrip:" + fam(c.name), c.name, docId, mutDesc, in, o1, o2, {}, "sig=" + diffSig(r1, r2)); failed = true; }
+                    else { failBoth(fam(c.name) + ":" + (sin.nsUndeclared ? std::string("input-has-xmlns-undeclaration") : diffSig(r1, r2)), c.name, docId, mutDesc, in, o1, o2, ""); failed = true; }
                 }
                 TestClient::resetIds();
                 st->phase = PH_RUN3;
@@ -392,20 +426,22 @@ static void explore(const QByteArray &in, const std::string &docId, const std::s
                 st->counters[C_RUNS]++; st->counters[C_BYTES_OUT] += o3.size();
                 st->phase = PH_ORACLE;
                 arm(200);
-                if (!o3.isEmpty()) s3 = summarizeXml(o3, ctxNs);
+                QDomDocument d3; QDomElement r3;
+                if (!o3.isEmpty()) s3 = summarizeXml(o3, ctxNs, &d3, &r3);
                 st->counters[C_OUT_CHECKED]++;
                 if (o3.isEmpty() || !s3.wellFormed) {
-                    failLine(o3.isEmpty() ? "C02:not-fixpoint:" + fam(c.name) : "C02:output-not-wellformed:" + fam(c.name), c.name, docId, mutDesc, in, o1, o2, o3, "o3");
+                    failLine(o3.isEmpty() ? "C02:not-fixpoint-after-2-passes:" + fam(c.name) + ":own-output-rejected" : "C02:output-not-wellformed:" + fam(c.name), c.name, docId, mutDesc, in, o1, o2, o3, "o3");
                     failed = true;
                 } else if (s2.ordered != s3.ordered) {
                     if (s2.sorted == s3.sorted) st->counters[C_FIX_ORDER_ONLY]++;
-                    else { failLine("C02:not-fixpoint:" + fam(c.name), c.name, docId, mutDesc, in, o1, o2, o3, "sig=" + diffSig(r1, r2)); failed = true; }
+                    else { failLine("C02:not-fixpoint-after-2-passes:" + fam(c.name) + ":" + (sin.nsUndeclared ? std::string("input-has-xmlns-undeclaration") : diffSig(r2, r3)), c.name, docId, mutDesc, in, o1, o2, o3, "o2 != o3"); failed = true; }
                 } else if (o2.size() < 20000 && s2.maxDepth < 200 && (st->counters[C_RUNS] & 7) == 0) {   // sampled: every 8th
                     // cross-check the hashed comparison with the declaration-level canonical form shared with the Lean side
                     st->counters[C_XCHECK]++;
                     if (vh::canonOfXml(o2) != vh::canonOfXml(o3)) st->counters[C_NSDECL_ONLY]++;
                 }
                 disarm();
+                safeClear(d3, s3.maxDepth);
             }
         }
         if (failed) st->counters[C_FAIL]++;
@@ -456,6 +492,13 @@ static QByteArray probeDoc(int tpl, int shape, int size)
     return render(n);
 }
 
+static void collectNames(const Node &n, std::set<QString> &out)
+{
+    if (n.isText) return;
+    out.insert(n.local);
+    for (auto &k : n.kids) collectNames(k, out);
+}
+
 static void runItem(const Work &w, int itemIdx, int resumeParser, Status *st, int &samplesLeft)
 {
     st->item = itemIdx; st->parser = -1; st->phase = PH_PREP;
@@ -490,7 +533,10 @@ static void runItem(const Work &w, int itemIdx, int resumeParser, Status *st, in
         printf("D %s\t%s\t%s\n", g_docs[w.doc].id.c_str(), mutDesc.c_str(), escLine(in, 4000).c_str());
         fflush(stdout);
         long long c0 = cpuMicros();
+        std::set<QString> vocab; collectNames(g_nodes[w.doc], vocab);
+        g_vocab = &vocab;
         explore(in, g_docs[w.doc].id, mutDesc, -1, resumeParser, st, samplesLeft, "", true);
+        g_vocab = nullptr;
         st->counters[C_KINDCPU0 + kind] += (cpuMicros() - c0) / 1000;
         break;
     }
@@ -505,7 +551,10 @@ static void runItem(const Work &w, int itemIdx, int resumeParser, Status *st, in
         QByteArray in = render(n);
         printf("D %s\t%s\t%s\n", g_docs[w.doc].id.c_str(), mutDesc.c_str(), escLine(in, 4000).c_str());
         fflush(stdout);
+        std::set<QString> vocab; collectNames(g_nodes[w.doc], vocab);
+        g_vocab = &vocab;
         explore(in, g_docs[w.doc].id, mutDesc, -1, resumeParser, st, samplesLeft, "", true);
+        g_vocab = nullptr;
         break;
     }
     case W_DEFAULT: {
@@ -758,8 +807,6 @@ int main(int argc, char **argv)
                     int t = line.indexOf('\t');
                     std::string k = line.mid(7, t < 0 ? -1 : t - 7).toStdString();
                     keys.insert(k);
-                    int sp = line.indexOf(" note=sig=");
-                    if (sp >= 0) { int e = line.indexOf(' ', sp + 10); keys.insert(k + "|" + line.mid(sp + 10, e < 0 ? -1 : e - sp - 10).toStdString()); }
                 }
                 if (r.crashed) { std::string what = classifyCrash(r); if (r.signal == SIGVTALRM) what = "timeout"; keys.insert("C02:crash:" + fam(g_table[pidx].name) + ":" + what); }
             };
@@ -866,6 +913,14 @@ int main(int argc, char **argv)
         }
         for (auto &kv : worst) if (keyInMode(kv.first)) { printf("O FAIL %s\t%s\n", kv.first.c_str(), kv.second.c_str()); failCount[kv.first]++; }
         vh::stat("probe_series", long(timings.size()));
+        vh::stat("probe_repetitions_per_point", PROBE_REPS);
+        auto list = [](const std::vector<int> &v) { std::string o; for (int x : v) o += (o.empty() ? "" : ",") + std::to_string(x); return o; };
+        printf("S probe_sizes_depth %s\nS probe_sizes_children %s\nS probe_sizes_attr_and_text_length %s\n", list(depthSizes).c_str(), list(childSizes).c_str(), list(lenSizes).c_str());
+        printf("S superlinear_rule cost(n)~n^e between the smallest and largest size, each point the median of %d repetitions; reported when e>1.5 on ALLOCATED BYTES "
+               "(malloc hook, load independent) and the largest point allocated >=1MiB; on CPU time only when e>1.8 and the largest point took >=1s (ITIMER_VIRTUAL process CPU, not wall clock); "
+               "linear code gives e~1.0, the QXmppElement defect e~2.0\n", PROBE_REPS);
+        printf("S crash_rule per call budget %d s process CPU (+6x wall backstop); big-depth probe %d levels for parsers found linear; thorough tier only: QXmppElement at 6000 levels with a 600 s budget, "
+               "client fed a 6000-level message over the socket with a 900 s budget\n", g_cfg.cpuBudget, g_cfg.depth);
     }
     // ---- stage 2: big depth (stack use) for parsers that scaled linearly in depth and did not time out
     if (g_cfg.probes) {
